@@ -4,6 +4,7 @@ import (
 	"fmt"
 	"go/types"
 	"regexp"
+	"sort"
 	"strconv"
 	"strings"
 
@@ -1499,11 +1500,24 @@ func (ev *Eval) resolveTypeName(e Expr) (types.Type, error) {
 		}
 	case *ESel:
 		if id, ok := x.X.(*EIdent); ok {
+			// several packages can share a name (block: 0chain.net/chaincore/block, gosdk/core/block):
+			// this module's packages first, in a fixed order
+			var cands []*ssa.Package
 			for _, p := range vc.P.Prog.AllPackages() {
 				if p.Pkg.Name() == id.Name {
-					if t := look(p.Pkg, x.Name); t != nil {
-						return t, nil
-					}
+					cands = append(cands, p)
+				}
+			}
+			sort.Slice(cands, func(i, j int) bool {
+				pi, pj := strings.HasPrefix(cands[i].Pkg.Path(), "0chain.net/"), strings.HasPrefix(cands[j].Pkg.Path(), "0chain.net/")
+				if pi != pj {
+					return pi
+				}
+				return cands[i].Pkg.Path() < cands[j].Pkg.Path()
+			})
+			for _, p := range cands {
+				if t := look(p.Pkg, x.Name); t != nil {
+					return t, nil
 				}
 			}
 		}
